@@ -316,3 +316,73 @@ func e4MaxTransmissions(r *e4Result) int {
 	}
 	return max
 }
+
+// ---- C05 through the retrying client: emitted requests carry exactly the requested fields
+
+func e4OracleC05(r *e4Result) string {
+	req := map[string]e4Req{}
+	for _, q := range r.Reqs {
+		req[q.Tag] = q
+	}
+	for _, e := range r.Log {
+		if !e4Emitted(e) {
+			continue
+		}
+		tag := vTagOf(*e.Pkt)
+		q, ok := req[tag]
+		if tag == "" || !ok {
+			continue
+		}
+		s := q.Step
+		switch e.Pkt.Type {
+		case rtPublish:
+			if q.Kind != "pub" {
+				continue
+			}
+			if e.Pkt.Topic != s.Topic || !bytes.Equal(e.Pkt.Payload, e4Payload(s.Idx, s.Extra)) || e.Pkt.QoS != s.QoS || e.Pkt.Retain != s.Retain || (s.ID != 0 && s.QoS > 0 && e.Pkt.ID != s.ID) {
+				return fmt.Sprintf("PUBLISH #%d on c%d %v differs from the submitted message idx %d {topic %q q%d retain %v id %d}", e.Seq, e.Conn, *e.Pkt, s.Idx, s.Topic, s.QoS, s.Retain, s.ID)
+			}
+		case rtSubscribe:
+			if q.Kind != "sub" {
+				continue
+			}
+			want := append([]c05Sub{{Filter: tag, QoS: s.QoS}}, s.Subs...)
+			if len(e.Pkt.Filters) == 1 {
+				// one filter: either the whole request or a re-subscription of one of its filters
+				found := false
+				for _, w := range want {
+					if w.Filter == e.Pkt.Filters[0] && w.QoS == e.Pkt.QoSs[0] {
+						found = true
+					}
+				}
+				if !found {
+					return fmt.Sprintf("SUBSCRIBE #%d on c%d %v does not correspond to the submitted request idx %d %v", e.Seq, e.Conn, *e.Pkt, s.Idx, want)
+				}
+				continue
+			}
+			if len(e.Pkt.Filters) != len(want) {
+				return fmt.Sprintf("SUBSCRIBE #%d on c%d carries %d filters, the submitted request idx %d has %d", e.Seq, e.Conn, len(e.Pkt.Filters), s.Idx, len(want))
+			}
+			for i, w := range want {
+				if e.Pkt.Filters[i] != w.Filter || e.Pkt.QoSs[i] != w.QoS {
+					return fmt.Sprintf("SUBSCRIBE #%d on c%d %v differs from the submitted request idx %d %v", e.Seq, e.Conn, *e.Pkt, s.Idx, want)
+				}
+			}
+		case rtUnsubscribe:
+			if q.Kind != "unsub" {
+				continue
+			}
+			want := []string{tag}
+			for _, f := range s.Subs {
+				want = append(want, f.Filter)
+			}
+			if fmt.Sprint(e.Pkt.Filters) != fmt.Sprint(want) {
+				return fmt.Sprintf("UNSUBSCRIBE #%d on c%d %v differs from the submitted request idx %d %v", e.Seq, e.Conn, *e.Pkt, s.Idx, want)
+			}
+		}
+	}
+	for _, pe := range r.ProtoErrs {
+		return "the retrying client emitted an ill-formed stream: " + pe
+	}
+	return ""
+}
